@@ -5,7 +5,7 @@ Model: Gecs/Model/Macro.lean (`collectWorld`, `collectQuery`, `chain`, `mkLookup
 data.rs, generate/query.rs by harness/mac.  For ALL declarations and queries with any number
 of predicates and ALL truth assignments.
 Not modelled: that rustc expands the `macro_rules!` chain in order and honours `#[cfg]` on
-closure parameters — that is rustc (exercised end-to-end by harness/rustc).
+closure parameters — that is rustc (exercised end-to-end by tools/e2e.py: generated programs compiled and run).
 -/
 import Gecs.Lemmas.MacCfgWorld
 import Gecs.Lemmas.MacCfgQuery
